@@ -31,7 +31,7 @@ REQUIRED_COUNTERS = ('new_oid_calls_checked', 'explicit_foreign_ids_stored', 're
 
 
 def shards(tier, seed):
-    return split(tier, seed, 4000, 40000, 40, 900)
+    return split(tier, seed, 12000, 400000, 40, 900)
 
 
 class Hostile:
